@@ -10,7 +10,7 @@ CLAUSE_OWNER = {
     'ExcIdentity': 'C02', 'RollbackRestores': 'C02', 'TempDirRemoved': 'C15',
     'ForeignUntouched': 'C03',
     'ExecOnlyIfJustified': 'C05', 'OutputsNotRewritten': 'C05',
-    'ArgsRoundTripped': 'C07', 'PathNormalised': 'C07',
+    'ArgsRoundTripped': 'C07', 'PathNormalised': 'C07', 'RootArgsPassed': 'C01',
     'DuplicateRejected': 'C08', 'SetupFailExpected': 'C10', 'SetupErrClass': 'C10',
     'TargetFileAfterOk': 'C10', 'TargetAbsentAfterFail': 'C10',
     'CleanExact': 'C12', 'CleanNoCacheNoEffect': 'C12',
@@ -22,7 +22,7 @@ ALL = set(CLAUSE_OWNER)
 C01_CLAUSES = {'ReturnMatches', 'FinalTreeMatches', 'ReuseOnlyIfValid', 'ExceptionClassMatches',
                'NoSpuriousException', 'PersistedEqualsReturned', 'CacheWritten', 'OutcomeMatches',
                'SetupFailExpected', 'SetupErrClass', 'ExceptionPropagates', 'AnswerMatches',
-               'DuplicateRejected', 'CleanExact'}
+               'DuplicateRejected', 'CleanExact', 'RootArgsPassed'}
 
 
 def nt_any(st, sc):
